@@ -7,6 +7,7 @@ import PyAirtouch.Model.CodecsWF
 import PyAirtouch.Model.Discovery
 import PyAirtouch.Model.RegistryCmd
 import PyAirtouch.Model.ApiCmd5   -- [API5]
+import PyAirtouch.Model.ApiCmd4   -- [API4]
 /-! Line-protocol driver over the *model* (Gen + Model). One request per line, one answer per line. -/
 open PyAirtouch PyAirtouch.Util PyAirtouch.Model
 
@@ -14,6 +15,7 @@ structure DState where
   vs : Model.SockValidate.VS := Model.SockValidate.VS.start
   apiGen : Nat := 0                                          -- [API] generation chosen by `api-new`
   api5 : Model.Api5.State := Model.ApiCmd5.fresh             -- [API5]
+  api4 : Model.ApiCmd4.Session := {}                         -- [API4] per-process AirTouch 4 API state
 
 def answerPure (ws : List String) : String :=
   match ws with
@@ -105,10 +107,14 @@ def answer (st : DState) (ws : List String) : DState × String :=
     let (v, out) := Model.SockValidate.vLine st.vs ws
     ({ st with vs := v }, out)
   | ["api-new", "5"] => ({ st with apiGen := 5, api5 := Model.ApiCmd5.fresh }, "ok")     -- [API5]
+  | ["api-new", "4"] => ({ st with apiGen := 4, api4 := {} }, "ok")                        -- [API4]
   | "api" :: rest =>                                                                      -- [API]
     if st.apiGen = 5 then                                                                 -- [API5]
       let (s5, out) := Model.ApiCmd5.apiLine st.api5 rest
       ({ st with api5 := s5 }, out)
+    else if st.apiGen = 4 then                                                            -- [API4]
+      let (s4, out) := Model.ApiCmd4.stepLine st.api4 rest
+      ({ st with api4 := s4 }, out)
     else (st, "bad-op")
   | _ => (st, answerPure ws)
 
